@@ -41,6 +41,21 @@ CHECKS = {
    "Seeded search over (input text, how the simulated kernel splits it across read(0) calls, injected read error, script shape); every call's result is compared with the text split at '\\n'. Sampling, not proof: a clean batch is evidence that no chunking within the explored shapes loses, duplicates or reorders bytes.",
    "Trusts the stub of the kernel side of fd 0 (fake_libc::read: returns min(count, planned piece, remaining), then 0). CR handling and terminal line discipline are outside the statement and not generated.",
    "DESIGN.md 3.3"),
+ "C16": chk("C16", "hostsim",
+   "deterministic simulation: real run_host_process on a simulated host (shuttle tasks + own seeded scheduler + discrete-event clock + simulated child/pipes) with injected short reads/writes, read errors, stalls and clock jitter; history oracle",
+   "Seeded search over (child script, limits, policies, pipe capacity, fault plan) x schedules of the wait loop, stdin writer, two reader threads, child and clock. The oracle derives the legal outcomes from the recorded history (what the child really wrote, when it exited, what the loop compared): complete result, or the matching error, child reaped, progress within a step budget. Sampling, not proof.",
+   "The OS (process, pipes, kill/wait, clock, scheduler) is a model written for this check; shuttle treats atomics as sequentially consistent. Grandchildren holding pipes and waitpid failures are outside the statement.",
+   "DESIGN.md 3.1"),
+ "C15": chk("C15", "hostsim",
+   "deterministic simulation: generated builder scripts run by the real runtime on the simulated host with injected spawn errors; reference model of the builder and of the documented limits; recorded spawn requests",
+   "Seeded search over host policy / small limits / builder histories (variables, array slots, copies, functions, loops, adversarial strings) and two schedules each. Refused => the documented error and zero spawn attempts beyond the allowed ones; spawned => the recorded Command equals the model byte for byte and the child reads exactly the configured stdin.",
+   "std::process::Command is a recording stub: that the OS receives what std was given (no shell) is trusted. When a command is both forbidden and invalid either refusal is accepted.",
+   "DESIGN.md 3.2"),
+ "C02": chk("C02", "memsim",
+   "deterministic simulation of the memory reclaimer: generated programs run with reclamation off (reference) and on under an adversarial reclaimer (poison/scribble on free, tiny pools forcing exhaustion and fallback); differential oracle",
+   "Seeded search over typed programs biased to the shapes that store, return, alias and recycle strings/arrays/builders, times reclaimer knobs. Every program's printed values and ending must equal the reference configuration's; a death of the interpreter with reclamation on is a violation. Sampling, not proof.",
+   "The reference is the interpreter itself with frame = None, as the property defines it. Rejected programs, reference stack overflows/deaths and genuine allocation failures are discarded and counted.",
+   "DESIGN.md 3.6"),
 }
 
 def main():
@@ -75,6 +90,8 @@ def main():
         f.write("\n")
 
 ENGINES = [
+ {"name": "hostsim", "path": "sim/harness/src/hostsim.rs + c15.rs + c16.rs + sim/shim/host.rs", "serves_properties": ["C15", "C16"], "kind_free_text": "shuttle-controlled tasks, own seeded/recordable/replayable Scheduler, discrete-event clock task, simulated child processes and bounded pipes, fault plan"},
+ {"name": "memsim", "path": "sim/harness/src/c02.rs + prog.rs + sim/shim/mem.rs", "serves_properties": ["C02"], "kind_free_text": "typed program generator with structural shrinker; reclamation on/off differential under poison/scribble and tiny-pool knobs"},
  {"name": "stdinsim", "path": "sim/harness/src/c17.rs", "serves_properties": ["C17"], "kind_free_text": "simulated read(2) on fd 0 (sim/shim/libc.rs) under the real UnixStdin::read_line and runtime"},
 ]
 
